@@ -185,6 +185,9 @@ class Ctx:
         return self.s.model()
 
 
+MAX_FAILED = 40
+
+
 class PathResult:
     """What a harness returns for one path."""
     def __init__(self, cls, obligations=(), observe=None, describe=None):
@@ -208,6 +211,9 @@ def explore(harness, root_prefix=(), max_paths=200000, seed_only=None, deadline=
               infeasible=0, second={"checked": 0})
     stride = max(1, getattr(harness, "validate_stride", 1))
     while work:
+        if len(st["failed"]) >= MAX_FAILED:
+            st["engine_errors"].append(f"stopped after {MAX_FAILED} counterexamples with {len(work)} prefixes unexplored")
+            break
         if seed_only is not None and st["paths"] >= seed_only:
             st["leftover"] = work
             break
@@ -253,6 +259,8 @@ def explore(harness, root_prefix=(), max_paths=200000, seed_only=None, deadline=
         Ctx.cur = ctx
         try:
             for label, goal in res.obligations:
+                if len(st["failed"]) >= MAX_FAILED:
+                    break          # enough counterexamples for this job; the run is a violation (or inconclusive) anyway
                 st["obligations"] += 1
                 r = ctx.check(z3.Not(goal)) if not isinstance(goal, bool) else (z3.unsat if goal else z3.sat)
                 if r == z3.unsat:
